@@ -71,7 +71,8 @@ var progs = []prog{
 		}
 		return out
 	}},
-	{"stop.mtail", "counter ones\ncounter rest\n/^1$/ {\n  ones++\n  stop\n}\n/$/ {\n  rest++\n}\n", func(fs map[string][]string) []string {
+	// stop is the last instruction of the program: the line after a stopped one must start afresh
+	{"stop.mtail", "counter ones\ncounter rest\n/^1$/ {\n  ones++\n} else {\n  rest++\n  stop\n}\n", func(fs map[string][]string) []string {
 		ones, rest := 0, 0
 		for _, ls := range fs {
 			for _, l := range ls {
@@ -98,8 +99,8 @@ var progs = []prog{
 	}},
 }
 
-var fileContents = map[string]string{"empty": "", "one": "1\n", "two": "1\n2\n", "tail": "1\n2", "blank": "\n", "endblank": "1\n\n", "midblank": "1\n\n2", "devnull": ""}
-var fileOrder = []string{"empty", "one", "two", "tail", "blank", "endblank", "midblank", "devnull"}
+var fileContents = map[string]string{"empty": "", "one": "1\n", "two": "1\n2\n", "tail": "1\n2", "blank": "\n", "endblank": "1\n\n", "midblank": "1\n\n2", "rev": "2\n1\n", "devnull": ""}
+var fileOrder = []string{"empty", "one", "two", "tail", "blank", "endblank", "midblank", "rev", "devnull"}
 
 func linesOf(content string) []string {
 	if content == "" {
@@ -298,5 +299,5 @@ func main() {
 		"map iteration order is fixed to sorted key order by the engine",
 		"the one library goroutine that enters instrumented code (prometheus DescribeByCollect during MustRegister, on an empty store, while the registering thread waits) takes free locks directly and is not a scheduled thread",
 	}
-	gsx.Finish(c, "schedule exploration of the whole one-shot pipeline (mtail.New + Run: tailer, file streams, runtime fan-out, VMs, exporter) on real files: program sets of size 1-2 (thorough: all, plus two of size 3) from {line counter, counter by getfilename(), per-file gauge of the last number, a program that stops on some lines, a program that raises runtime errors on some lines} × file sets of size 1-2 (thorough 3) from {empty, 1 line, 2 lines, unterminated last line, one blank line, trailing blank line, blank line in the middle with an unterminated tail, a matching path that is a character device}; all schedules with <=1 deviation (thorough: 2 for single-program scenarios); Run returns, every controlled thread has finished, lines_total equals the number of lines, the final store equals the reference; distinct_nontrivial = schedules with >=1 deviation")
+	gsx.Finish(c, "schedule exploration of the whole one-shot pipeline (mtail.New + Run: tailer, file streams, runtime fan-out, VMs, exporter) on real files: program sets of size 1-2 (thorough: all, plus two of size 3) from {line counter, counter by getfilename(), per-file gauge of the last number, a program whose last instruction is a stop taken on some lines, a program that raises runtime errors on some lines} × file sets of size 1-2 (thorough 3) from {empty, 1 line, 2 lines, unterminated last line, one blank line, trailing blank line, blank line in the middle with an unterminated tail, two lines of which the first stops the stopping program, a matching path that is a character device}; all schedules with <=1 deviation (thorough: 2 for single-program scenarios); Run returns, every controlled thread has finished, lines_total equals the number of lines, the final store equals the reference; distinct_nontrivial = schedules with >=1 deviation")
 }
